@@ -481,6 +481,10 @@ func typeIsString(t types.Type) bool {
 // if one is found, otherwise returning `nil, false`
 // nilable(result 0)
 func exprAsConsumedByAssignment(rootNode *RootAssertionNode, expr ast.Node) *annotation.ConsumeTrigger {
+	// The assignment target may be parenthesized, e.g., `(m[k]) = v`.
+	if e, ok := expr.(ast.Expr); ok {
+		expr = ast.Unparen(e)
+	}
 	if exprType, ok := expr.(*ast.IndexExpr); ok {
 		t := rootNode.Pass().TypesInfo.TypeOf(exprType.X)
 		if typeshelper.IsDeeplyType[*types.Map](t) {
@@ -561,6 +565,9 @@ func exprAsAssignmentConsumer(rootNode *RootAssertionNode, expr ast.Node, exprRH
 
 	handleDeepAssignmentToExpr :=
 		func(expr ast.Expr) (annotation.ConsumingAnnotationTrigger, error) {
+			// likewise, the expression that is indexed, dereferenced or sent on may be parenthesized,
+			// e.g., `(g)[i] = nil` or `*(p) = nil`.
+			expr = ast.Unparen(expr)
 
 			switch expr := expr.(type) {
 			case *ast.Ident:
